@@ -405,12 +405,21 @@ func c02SlotRules(rng *rand.Rand, cls, host, qt string, id int, slot string) (ru
 			v6 = rng.Intn(3) != 0
 		}
 		var ip, typ string
+		mapped := false
 		if v6 {
 			ip, typ, rwfam = fmt.Sprintf("2001:db8:1::%x", id), "AAAA", "6"
+			if rng.Intn(4) == 0 {
+				// an IPv4-mapped IPv6 address is an IPv6 address (explicit record type only)
+				ip, mapped = fmt.Sprintf("::ffff:203.0.113.%d", 1+id%250), true
+			}
 		} else {
 			ip, typ, rwfam = fmt.Sprintf("192.0.2.%d", 1+(id*7+len(slot))%250), "A", "4"
 		}
-		switch rng.Intn(3) {
+		tmpl := rng.Intn(3)
+		if mapped {
+			tmpl = 1
+		}
+		switch tmpl {
 		case 0:
 			return []string{pat + "$dnsrewrite=" + ip}, ip, rwfam
 		case 1:
@@ -624,8 +633,12 @@ func (w *c02World) concretise(rng *rand.Rand, c *c02Case) {
 	case "custom46":
 		k.CIP4 = []string{fmt.Sprintf("192.0.2.%d", 100+c.ID%100)}
 		k.CIP6 = []string{fmt.Sprintf("2001:db8:99::%x", c.ID)}
-		if rng.Intn(2) == 0 {
+		switch rng.Intn(4) {
+		case 0, 1:
 			k.CIP6 = append(k.CIP6, "2001:db8:99::ffff")
+		case 2:
+			// the profile's custom IPv6 block address may be an IPv4-mapped one
+			k.CIP6 = []string{fmt.Sprintf("::ffff:198.51.100.%d", 1+c.ID%250)}
 		}
 	}
 	k.NullIP = ""
